@@ -300,6 +300,11 @@ def r01_234(chk, cr):
         chk.ob("R01.3", CR, q, "the KD-tree used for merging is built on the wrapped positions",
                tr is not None and tr.as_atom() and "KDTree" in tr.as_atom()[1].key() and tr.as_atom()[2][0].key() == trans.key(),
                found=str(tr))
+        kwt = dict(tr.as_atom()[3]) if tr is not None and tr.as_atom() and len(tr.as_atom()) > 3 and tr.as_atom()[3] else {}
+        bs = kwt.get("boxsize")
+        chk.ob("R01.3", CR, q, "the merge is periodic: images wrapped to opposite faces of the cell (0.00003 / 0.99997) are the same site, so the tree "
+               "has the unit box as its period", bs is not None and bs.const_value() == 1, fingerprint="periodic-tree",
+               expected="KDTree(wrapped, boxsize=1.0)", found=str(tr))
         kind, desc = pair_enumeration(ev, defs)
         chk.ob("R01.3", CR, q, "coincident images are enumerated by a tolerance-bounded query of the tree against itself, in a defined order "
                "(with three or more coincident images the accumulated occupancy depends on the order in which pairs are merged)",
